@@ -12,6 +12,7 @@ from fractions import Fraction as F
 from mc import charts
 
 ID = "C19"
+LARGE = "200 tempo points, 500 SVs, 1000 notes (osu, Quaver, BMS), with and without override"
 TITLE = "Dominant bpm, scroll speed and SV normalisation follow their definitions"
 RULE = (
     "function enumeration: a state is a distinct (game, tempo points, SVs, note layout, override); a transition is one call of "
